@@ -155,7 +155,9 @@ class Uniform(Prior):
 
         if guess is None:
             if np.isfinite(lower_bound) and np.isfinite(upper_bound):
-                self.guess = (upper_bound + lower_bound) / 2
+                # python floats: a float32 bound must not make the midpoint
+                # overflow to inf (numpy keeps float32 + 1e300 in float32)
+                self.guess = (float(upper_bound) + float(lower_bound)) / 2
             elif np.isfinite(lower_bound):
                 self.guess = lower_bound
             elif np.isfinite(upper_bound):
